@@ -1055,6 +1055,11 @@ class Function(Ring):
 
             if self.x.owndata == True or self.func == self.Id:
                 self.xbar = self.x.zeros_like()
+            elif not any(numpy.may_share_memory(self.x.data, fa.x.data) for fa in self.args
+                         if isinstance(fa, self.__class__) and isinstance(fa.x, algopy.UTPM)):
+                # not a view of an argument after all (e.g. the reshape of a
+                # non-contiguous array is a copy): the adjoint is no view either
+                self.xbar = self.x.zeros_like()
             else:
 
                 # STEP 1: extract arguments for func
